@@ -40,6 +40,8 @@ Proof.
     exists v. fold (bind_all ws (bind k v m)). rewrite lookup_bind_all_notin by assumption. apply lookup_bind_eq.
 Qed.
 
+Opaque bind.
+
 Lemma mem_true_iff : forall x l, mem x l = true <-> In x l.
 Proof.
   induction l; simpl; [split; [discriminate|tauto]|].
@@ -102,6 +104,7 @@ Proof.
   destruct o; simpl in H;
     try (injection H as <-; destruct g; simpl in *; try reflexivity;
          rewrite lookup_bind_neq; [reflexivity|intro; subst; apply Hn; left; reflexivity]);
+    try (injection H as <-; destruct g; reflexivity);
     try discriminate.
   (* OImpl *)
   assert (Hk : g = TF -> ~ In k (map fst (method_binds d))).
